@@ -283,6 +283,15 @@ def run(ctx):
     from . import c05, c12
     c05.rule_ctor_label(ctx, ctx.py, "C04.CTOR")
     c12.rule_unitstr(ctx, ctx.py, "C04.SERIAL")
+    # shared clauses: the conversion itself (C06: SI table, product-of-ratios factor, dimension guard, argument order)
+    from ..core import borrow
+    from . import c06
+    borrow(ctx, "C04", c06.rule_si, ctx.py)
+    borrow(ctx, "C04", c06.rule_keys, ctx.py)
+    borrow(ctx, "C04", c06.rule_dimguard, ctx.py)
+    borrow(ctx, "C04", c06.rule_convert_args, ctx.py, "C04.ARGS-CONV")
+    from .. import ffi
+    ffi.rule_sig(ctx, "C04.FFI")
     from .. import lints
     lints.run(ctx, "C04", ctx.py, ["units", "librdengine", "rdsystem", "coarsegrain", "value_processing"])
     ctx.assume("equality of the numbers after rounding is not decided; the dimensions assumed for the marshalled inputs "
